@@ -257,6 +257,9 @@ def run(ctx):
     for key, ws in sorted(statics.items()):
         ctx.bad("R14.4", ws[0][0], "static-write:" + str(key),
                 "static-storage object %s is written on the parse path (%s)" % (key, short(ws[0][0].qual)), ws[0][0])
+    from .common import fx
+    g = fx(ctx, "counts_calls")
+    ctx.fixture("R14.4", "counts_calls", g is not None and bool(cg.static_writes(g)), True, "write to a static-storage object recognised")
     if not written and not statics:
         ctx.ok("R14.4", parse, "no-parser-or-static-state",
                "no member of parser and no static-storage object is written on the parse path (%d functions scanned)" % len(full_reach), parse)
